@@ -2,7 +2,7 @@
 from . import core
 from .. import tracecheck
 from ..common import Check
-from . import c03, c05, c06, c07
+from . import c03, c05, c06, c07, c14
 
 
 def observations(lines, nslots, nops):
@@ -79,6 +79,10 @@ def run(tier):
     fams.append(('handshake frame sequences', cfgA, 1, c06.handshake_scripts(2)[::3 if th else 7]))
     fams.append(('simultaneous end causes', dict(cfgA, monitor=True), 1, c05.race_scripts()[::2 if th else 5]))
     fams.append(('bursts', cfgA, 1, core.burst_scripts(seed + 5, 24)))
+    # the size limit must be the same quantity in both servers (bytes of the body): probes around
+    # a 100-byte limit, ASCII, binary and multi-byte text
+    fams.append(('size probes around a 100-byte limit', dict(cfgA, max_buf=100), 2,
+                 c14.size_scripts(seed, 100)))
     pairs, meta = [], []
     plans = []
     # Silence is detected "within the heartbeat bound" only with client monitoring on, and
